@@ -434,6 +434,7 @@ func (p *PitCsTree) InsertData(data *spec.Data, wire []byte) {
 func (p *PitCsTree) eraseCsDataFromReplacementStrategy(index uint64) {
 	if entry, ok := p.csMap[index]; ok {
 		entry.node.csEntry = nil
+		entry.node.pruneIfEmpty()
 		delete(p.csMap, index)
 		p.nCsEntries--
 	}
